@@ -1,7 +1,10 @@
+from common import STD
 PROPERTY = "C08"
 EXPLANATION = ("Bounded symbolic execution of the real taskTrace.Do / taskTrace.process / timeout goroutine under a "
                "symbolic scheduler (every channel operation is a scheduling point, the choice at each step is an SMT variable).")
-ASSUMPTIONS = ["task timeout = 0 in C08.a (the timeout goroutine returns immediately)"]
+ASSUMPTIONS = ["task timeout = 0 in C08.a (the timeout goroutine returns immediately)",
+               "C08.c: the task node is a stand-in answering every request with an error and the chosen handler; flow loop, retry arithmetic and error traces are the real code; tracer replaced by the synchronous stub",
+               "declared-only storage of results (ApplyTaskResult / ApplyTaskDataOutput) is not covered"]
 SCENARIOS = [
     dict(name="C08.a Do x1", entry="VerifC08a_Do1", K=40, reach=["quiescent"], bounds="1 Do call, 1 consumer",
          expect_obligations=["every Do call returns", "the consumer receives exactly one response"]),
@@ -11,4 +14,19 @@ SCENARIOS = [
          expect_obligations=["every Do call returns", "the consumer receives exactly one response"]),
     dict(name="C08.a Do x2 + cancel", entry="VerifC08a_Do2Cancel", K=40, reach=["quiescent"], bounds="2 concurrent Do calls, context cancelled at an arbitrary step",
          expect_obligations=["every Do call returns", "the consumer receives exactly one response"]),
+    dict(name="C08.c retry", entry="VerifC08c_Retry", K=90, reach=["quiescent"], overrides=STD, native=False,
+         bounds="a task that keeps failing with a retry handler, retry count 0..2 (solver's choice), task definition default 2",
+         expect_obligations=["retry: the task is re-requested exactly the given number of additional times while it keeps failing"]),
+    dict(name="C08.c retry count 0", entry="VerifC08c_Retry0", K=90, reach=["quiescent"], overrides=STD, native=False, bounds="retry handler with count 0 (task definition default 2)",
+         expect_obligations=["retry: the task is re-requested exactly the given number of additional times while it keeps failing"]),
+    dict(name="C08.c retry count 1", entry="VerifC08c_Retry1", K=90, reach=["quiescent"], overrides=STD, native=False, bounds="retry handler with count 1",
+         expect_obligations=["retry: the task is re-requested exactly the given number of additional times while it keeps failing"]),
+    dict(name="C08.c retry count 2", entry="VerifC08c_Retry2", K=90, reach=["quiescent"], overrides=STD, native=False, bounds="retry handler with count 2",
+         expect_obligations=["retry: the task is re-requested exactly the given number of additional times while it keeps failing"]),
+    dict(name="C08.c skip", entry="VerifC08c_Skip", K=60, reach=["quiescent"], overrides=STD, native=False, bounds="error + skip handler",
+         expect_obligations=["no handler or skip: the token continues after the error trace"]),
+    dict(name="C08.c exit", entry="VerifC08c_Exit", K=60, reach=["quiescent"], overrides=STD, native=False, bounds="error + exit handler",
+         expect_obligations=["exit: the token stops"]),
+    dict(name="C08.c no handler", entry="VerifC08c_NoHandler", K=60, reach=["quiescent"], overrides=STD, native=False, bounds="error without handler",
+         expect_obligations=["no handler or skip: the token continues after the error trace"]),
 ]
